@@ -459,6 +459,38 @@ def check_include_bytes(ctx, asm):
                     elif got != exp:
                         ctx.cex('include_bytes scenario {} run from {}/ emits other bytes than the file the search found'
                                 .format(name, cwd_rel), inp, got.hex()[:200], exp.hex()[:200], m)
+        # the embedded file is read when the program is assembled: rewritten between two calls of ONE process (same
+        # length, other contents; also another length), every call must embed what is on disk at that moment
+        sroot = os.path.join(root, 'gen')
+        make_tree(sroot, {'proj/main.asm': b'db 0x11\ninclude_bytes table.bin\ndb 0x22\n', 'proj/table.bin': b'\x00' * 8,
+                          'inc/logo.dat': b'ABCD'})
+        gens = [bytes(range(8)), bytes(range(16, 24)), b'\xff' * 8, bytes(range(5)), bytes(range(8))]
+        for g, content in enumerate(gens):
+            with open(os.path.join(sroot, 'proj', 'table.bin'), 'wb') as f:
+                f.write(content)
+            ctx.evaluations += 1
+            st, got = run_inc(asm, sroot, {}, 'proj/main.asm', [], 'proj', True)
+            exp = b'\x11' + content + b'\x22'
+            if st != 'ok' or got != exp:
+                ctx.cex('include_bytes after the file was rewritten (generation {}): emits {} but the file holds {}'.format(
+                    g, got if st != 'ok' else got.hex(), exp.hex()),
+                    {'kind': 'incbytes-rewrite', 'generations': [x.hex() for x in gens[:g + 1]]}, got if st != 'ok' else got.hex(), exp.hex(),
+                    {'kind': 'include-bytes', 'cwd': 'rewritten-between-calls'})
+        for g, content in enumerate([b'ABCD', b'WXYZ', b'ABCD']):
+            with open(os.path.join(sroot, 'inc', 'logo.dat'), 'wb') as f:
+                f.write(content)
+            old = os.getcwd()
+            os.chdir(os.path.join(sroot, 'proj'))
+            try:
+                ctx.evaluations += 1
+                st, got = run_line(asm, 'include_bytes logo.dat\n', include_dirs=[os.path.join(sroot, 'inc')])
+            finally:
+                os.chdir(old)
+            if st != 'ok' or got != content:
+                ctx.cex('include_bytes via -i after the file was rewritten (generation {}): emits {} but the file holds {}'.format(
+                    g, got if st != 'ok' else got.hex(), content.hex()),
+                    {'kind': 'incbytes-rewrite', 'generations': ['41424344', '5758595a'][:g + 1]}, got if st != 'ok' else got.hex(), content.hex(),
+                    {'kind': 'include-bytes', 'cwd': 'rewritten-between-calls'})
         # source given as a string: the search uses the working directory
         sroot = os.path.join(root, 'str')
         files = {'here/s.bin': b'\x01\x02\x03', 'inc/t.bin': b'\x09\x08'}
@@ -484,6 +516,16 @@ def check_include_bytes(ctx, asm):
 def replay_incbytes(asm, inp):
     root = tempfile.mkdtemp(prefix='bbincr')
     try:
+        if inp['kind'] == 'incbytes-rewrite':
+            make_tree(root, {'proj/main.asm': b'db 0x11\ninclude_bytes table.bin\ndb 0x22\n', 'proj/table.bin': b''})
+            st, got, exp = 'ok', b'', b''
+            for gx in inp['generations']:
+                content = bytes.fromhex(gx)
+                with open(os.path.join(root, 'proj', 'table.bin'), 'wb') as f:
+                    f.write(content)
+                st, got = run_inc(asm, root, {}, 'proj/main.asm', [], 'proj', True)
+                exp = b'\x11' + content + b'\x22'
+            return st, got, exp
         files = {p: bytes.fromhex(d) for p, d in inp['files'].items()}
         make_tree(root, files)
         if inp['kind'] == 'incbytes-string':
